@@ -767,6 +767,11 @@ def req_C06(r, tier):
     for i in range(sz(tier, 6, 60)):
         n = 1 + r.below(6)
         out.append(("ris.double_compress_batch_rep:rand", "ris.double_compress_batch_rep " + lst("%s:%d" % (r.choice(pool)[1].hex(), r.below(4)) for _ in range(n))))
+    # the group / cofactor trait methods on every coset representative (prime order: every representative of every element is torsion-free,
+    # is admitted by into_subgroup, and is the identity exactly when the element is)
+    for lab, b in [("identity", bytes(32))] + ris_pool(r, 6):
+        for j in range(4):
+            out.append(("grp.ris_group:%s:rep%d" % (lab.split("(")[0][:10], j), "grp.ris_group %s %d" % (b.hex(), j)))
     # identity in batch (documented: batch double-and-compress of identity)
     out.append(("ris.double_compress_batch:id", "ris.double_compress_batch " + lst([ris_encode(ZERO).hex(), ris_encode(B).hex(), ris_encode(ZERO).hex()])))
     for i in range(sz(tier, 20, 300)):
@@ -793,6 +798,14 @@ def req_C07(r, tier):
     us = [("lo%d" % i, u) for i, u in enumerate(low_order_u())] + [("9", 9), ("2^255-1", M255), ("2^256-1", (1 << 256) - 1), ("2^255+9", (1 << 255) + 9),
                                                                ("p+9", P + 9), ("2", 2), ("twist2", 2)]
     us += [(l_ + "|b255", u | (1 << 255)) for l_, u in list(us) if u < (1 << 255)]
+    # NEIGHBOURS of the special u values: the special value with ONE other byte changed (a fast path / comparison that inspects only part
+    # of the 32 bytes - prefix, suffix, a single byte - mistakes these for the special value)
+    for l_, u in [("9", 9), ("0", 0), ("1", 1), ("p-1", P - 1)]:
+        ub = bytearray(tole(u))
+        for pos, vals in ((31, (0x01, 0x40, 0x7f, 0x81, 0xff)), (30, (0x01, 0xff)), (16, (0x01,)), (1, (0x01, 0xff))):
+            for v_ in vals:
+                nb = bytearray(ub); nb[pos] ^= v_
+                us.append(("near_%s:byte%d" % (l_, pos), int.from_bytes(bytes(nb), "little")))
     for i in range(sz(tier, 30, 500)):
         us.append(("rand", r.below(1 << 256)))
     ks = [("0", 0), ("1", 1), ("8", 8), ("ff", (1 << 256) - 1), ("l", L), ("8l", 8 * L % (1 << 256)), ("clamped_l_mult", 0),
@@ -913,6 +926,26 @@ def req_C08(r, tier):
         m = r.bytes(r.below(50))
         out.append(("eds.raw_sign", "eds.raw_sign %s %s %s" % (esk.hex(), hx(m), ed_pub(sd).hex())))
         out.append(("eds.raw_sign:othervk", "eds.raw_sign %s %s %s" % (r.bytes(64).hex(), hx(m), ed_pub(sd).hex())))
+        # the hazmat generic functions with a context digest other than SHA-512 (TaggedSha512): sign, and verify the result, pure and
+        # prehashed; plus the cross cases (a SHA-512 signature offered to the tagged verifier must be rejected)
+        vk_ = ed_pub(sd)
+        a_, pre_ = ed_expand(sd)
+        def alt_sign(dom, mm):
+            from pyref import sha512 as _h, le as _le
+            rr = _le(_h(b"alt" + dom + pre_ + mm)) % L
+            Rb = compress(smul(rr, B))
+            kk = _le(_h(b"alt" + dom + Rb + vk_ + mm)) % L
+            return Rb + tole((rr + kk * a_) % L)
+        out.append(("eds.raw_sign_alt", "eds.raw_sign_alt %s %s %s" % (esk.hex(), hx(m), vk_.hex())))
+        out.append(("eds.raw_verify_alt:own", "eds.raw_verify_alt %s %s %s" % (vk_.hex(), hx(m), alt_sign(b"", m).hex())))
+        out.append(("eds.raw_verify_alt:sha512sig", "eds.raw_verify_alt %s %s %s" % (vk_.hex(), hx(m), ed_sign(sd, m).hex())))
+        for cx in (None, b"", b"ctx"):
+            cs = "~" if cx is None else (hx(cx) if cx else "-")
+            from pyref import sha512 as _h2, dom2 as _dom2
+            dm = _dom2(1, cx or b"")
+            out.append(("eds.raw_sign_ph_alt", "eds.raw_sign_ph_alt %s %s %s %s" % (esk.hex(), hx(m), vk_.hex(), cs)))
+            out.append(("eds.raw_verify_ph_alt:own", "eds.raw_verify_ph_alt %s %s %s %s" % (vk_.hex(), hx(m), cs, alt_sign(dm, _h2(m)).hex())))
+            out.append(("eds.raw_verify_ph_alt:sha512sig", "eds.raw_verify_ph_alt %s %s %s %s" % (vk_.hex(), hx(m), cs, ed_sign(sd, m, cx or b"").hex())))
     return out
 
 
@@ -1057,6 +1090,8 @@ def req_C09(r, tier):
         out.append(("eds.sig:len%d" % n, "eds.sig " + hx(r.bytes(n))))
     for i in range(sz(tier, 30, 500)):
         out.append(("eds.verify:random", "eds.verify %s %s %s" % (ed_pub(r.bytes(32)).hex(), hx(r.bytes(10)), r.bytes(64).hex())))
+    # verification through the hazmat generic functions with a context digest other than SHA-512 (classes built in req_C08)
+    out += [x for x in req_C08(r, "quick") if "_alt" in x[0]]
     return out
 
 
